@@ -104,6 +104,18 @@ def rule_inv(ctx):
     DISC, CONNECTING, CONNECTED, DISCONNECTING = S["STATE_DISCONNECTED"], S["STATE_CONNECTING"], S["STATE_CONNECTED"], S["STATE_DISCONNECTING"]
     mk_event = lambda: ("obj", _event_obj(ctx.repo))
     handlers = {"onConnected": (), "onDisconnected": (), "onConnectionError": (("c", "err"),), "onConnectLayerEvent": "ev", "onDisconnectLayerEvent": "ev", "send": (("c", b"x"),)}
+    # the other way to ask for a connection: the layer interface's connect() (used by the application layer's connect / its
+    # reconnect after a stream error, and by the encryption control layer after a key upload) calls a method of the layer
+    iface_connect = None
+    ic = ctx.repo.cls("yowsup/layers/network/layer_interface.py", "YowNetworkLayerInterface", required=False)
+    if ic is not None and "connect" in ic.methods:
+        for n in ast.walk(ic.methods["connect"]):
+            if isinstance(n, ast.Call) and isinstance(n.func, ast.Attribute) and isinstance(n.func.value, ast.Attribute) and n.func.value.attr == "_layer" and not n.args:
+                iface_connect = n.func.attr
+    if iface_connect is not None and iface_connect not in handlers and ctx.repo.find_method(m.cls, iface_connect)[1] is not None:
+        handlers[iface_connect] = ()
+    else:
+        iface_connect = None
     # transformers for every (state, connected)
     T, TS = {}, {}
     for h, args in handlers.items():
@@ -136,6 +148,8 @@ def rule_inv(ctx):
 
     def env_events(sock, st):
         ev = ["onConnectLayerEvent"]      # a connect request may come at any time (another thread, an impatient application)
+        if iface_connect is not None:
+            ev.append(iface_connect)      # ... also through the layer interface
         if sock == "connecting":
             ev += ["onConnected", "onConnectionError", "onDisconnectLayerEvent"]
         if sock == "up":
